@@ -65,7 +65,7 @@ def gen_song(rng, ntracks=None, loops=None, tempo_changes=True, same_tick=True, 
     length_ticks = rng.choice([division * 2, division * 8, division * 16]) if not big else division * 64
     loop_start = loop_end = None
     if loops is None:
-        loops = rng.choice([None, None, "markers", "cc111", "start-only", "end-only", "invalid-order", "duplicate", "same-row"])
+        loops = rng.choice([None, None, "markers", "cc111", "start-only", "end-only", "invalid-order", "duplicate", "same-row", "stack", "stack"])
     s.loops = loops
     if loops in ("markers", "cc111", "start-only", "invalid-order", "duplicate", "same-row"):
         loop_start = rng.randrange(0, max(1, length_ticks // 2))
@@ -157,6 +157,16 @@ def gen_song(rng, ntracks=None, loops=None, tempo_changes=True, same_tick=True, 
         insert(rng.randrange(ntracks), loop_end, b"\xff\x06" + vlq(7) + rng.choice([b"loopEnd", b"loopend"]), ("loopend",))
     if loops == "duplicate":
         insert(rng.randrange(ntracks), loop_start + 1, b"\xff\x06" + vlq(9) + b"loopStart", ("loopstart",))
+    if loops == "stack":
+        # counted loops (marker "loopStart=N" ... "loopEnd=0"), possibly nested, possibly unbalanced
+        a = rng.randrange(0, max(1, length_ticks // 3)); b = rng.randrange(length_ticks // 3 + 1, length_ticks)
+        seq = [(a, b"loopStart=%d" % rng.choice([0, 1, 2, 3])), (b, b"loopEnd=0")]
+        if rng.random() < 0.5:
+            seq += [(a + 1, b"loopStart=2"), (max(a + 2, b - 1), b"loopEnd=0")]
+        if rng.random() < 0.3:
+            seq += [(b + 1, rng.choice([b"loopEnd=0", b"loopStart=1"]))]
+        for (tk2, txt) in seq:
+            insert(tk, tk2, b"\xff\x06" + vlq(len(txt)) + txt, ("meta",))
     return s
 
 
